@@ -350,6 +350,39 @@ theorem C01_offset_partial (b : Nat) (hb : 1 ≤ b) (pad : List SepItem) (hpad :
   rw [htok]
   exact congrArg some (C01_nesting (valueOf t) (clean_tree t hwf))
 
+/-- Several objects in a row, read by successive `nextobject()` calls (content / object streams): the
+    operand stack and the results queue carried from one call to the next — with up to two trailing
+    integers held back by `flush` and handed out at PSEOF — deliver every value exactly once, in
+    order, whatever the sequence ends with. -/
+theorem C01_sequence_nesting (vs : List PObj) (hc : cleanList vs) :
+    (finish (feedAll {} (serList vs))).results = normList vs ∧ (finish (feedAll {} (serList vs))).error = none := by
+  have h := top_serList vs [] {} hc ⟨rfl, rfl, rfl⟩
+  simpa [feedAll] using finish_top _ _ h
+
+/-- …end to end, from the bytes, at every buffer size, behind any separator. -/
+theorem C01_sequence_roundtrip_partial (b : Nat) (hb : 1 ≤ b) (pad : List SepItem) (hpad : sepOK pad)
+    (ts : List STree) (hwf : wfList ts) :
+    (run b (renderSep pad ++ bytesList ts)).map (fun toks => ((objects toks).results, (objects toks).error))
+      = some (normList (valueList ts), none) := by
+  have hu := LexUnit.append_free (LexUnit.sep pad hpad) (lex_seq ts hwf)
+  obtain ⟨st', hm, h⟩ := hu St.init 10 [] 0 (Or.inl rfl) (fun _ => by decide)
+  have htok : tokVals (specLex (renderSep pad ++ bytesList ts)) = serList (valueList ts) := by
+    unfold specLex
+    rw [h, ho_newline st' _ hm]
+    simp [tokVals]
+  have hn := C01_sequence_nesting (valueList ts) (clean_list ts hwf)
+  rw [C14.C14_run_eq_spec b hb, Option.map_some]
+  unfold objects
+  simp only [tokVals] at htok
+  rw [htok, hn.1, hn.2]
+
+/-- Non-vacuity: `3 4 ` — the two trailing integers of seeded change C01-m7 — is a well-formed sequence. -/
+example : wfList [.int [] [51] [.ws 32], .int [] [52] [.ws 32]] := by
+  have hws : sepOK [.ws 32] := by intro i hi; simp at hi; subst hi; simp [SepItem.ok, isGapByte]
+  simp only [wfList, wfListE, wfE, signOK, digitsOK, endsReg]
+  exact ⟨⟨by simp, ⟨by decide, by decide, by decide⟩, hws⟩, ⟨⟨by simp, ⟨by decide, by decide, by decide⟩, hws⟩, trivial,
+    by simp⟩, by simp⟩
+
 /-- END-TO-END for the `getobj` reader: an indirect object `n g obj <spelled tree> endobj` (any separators,
     minimal delimiters and comments included, any white space / comments in front, any buffer size)
     read by the tokenizer and `PDFDocument._getobj_parse` / `PDFParser.nextobject` yields exactly the
